@@ -390,6 +390,19 @@ def check_reader_loop(ctx, fn: FuncInfo, loop: ast.For, call: ast.Call) -> bool:
     key = f'{fn.qualname}/reader-loop'
     where = f'{fn.module.rel}:{call.lineno}'
     ok = True
+    # work on the canonical form of the function: `if key not in X.InputParameters: continue` is the same loop as
+    # `if key in X.InputParameters: <rest>` (guard clause un-nested), attribute aliases inlined
+    from gxstat.inline import canonical_function
+    cfn = canonical_function(fn.node, unnest=True)
+    cl = [n for n in ast.walk(cfn) if isinstance(n, ast.For) and (n.lineno, n.col_offset) == (loop.lineno, loop.col_offset)]
+    cc = [n for n in ast.walk(cfn) if isinstance(n, ast.Call) and (n.lineno, n.col_offset) == (call.lineno, call.col_offset) and
+          dotted_name(n.func) == 'ReadParameter']
+    if len(cl) == 1 and len(cc) == 1:
+        class _F:
+            pass
+        fn_ = _F()
+        fn_.node, fn_.module, fn_.qualname = cfn, fn.module, fn.qualname
+        fn, loop, call = fn_, cl[0], cc[0]
     it = norm(loop.iter)
     if _is_key_intersection(loop.iter):
         # order-free form: the entry handed to the reader must be looked up by the loop key
